@@ -13,7 +13,7 @@ use crate::scenario::*;
 use crate::sim::CloseKind;
 
 pub const END_KINDS: &[&str] = &[
-    "quit", "close", "close-mid-line", "close-unread-output", "half-close", "invalid-utf8", "over-long-line", "kill", "pong-timeout", "kill-twice",
+    "quit", "close", "close-mid-line", "close-unread-output", "half-close", "invalid-utf8", "over-long-line", "kill", "pong-timeout", "kill-twice", "command-and-close", "quit-and-close",
 ];
 
 fn build(cfg: &[u16]) -> Built {
@@ -236,6 +236,16 @@ fn end_session(eng: &mut Engine, victim: usize, kind: &str, killer: Option<usize
             let o = eng.close(victim, CloseKind::HalfClose);
             if !o.discs.is_empty() {
                 return Err(viol_from(eng, &o, kind, "write side shut down"));
+            }
+        }
+        "command-and-close" | "quit-and-close" => {
+            // the last line and the close arrive together: whatever the server answers can no
+            // longer be delivered (its write fails)
+            let line = if kind == "quit-and-close" { "QUIT :gone at once\r\n".to_string() } else { format!("LUSERS\r\nWHOIS {}\r\n", vnick) };
+            eng.world.send_bytes(victim, line.as_bytes());
+            let o = eng.close(victim, CloseKind::Drop);
+            if !o.discs.is_empty() {
+                return Err(viol_from(eng, &o, kind, "last line and close arrive together"));
             }
         }
         "close-mid-line" => {
